@@ -364,6 +364,16 @@ func (g *goGen) literal(n *inNode) (string, bool) {
 		if n.vid.Sign() == 0 || n.pointee == nil {
 			return fmt.Sprintf("(%s)(nil)", ts), true
 		}
+		if n.pointee.kind == "struct" {
+			// an object of another package with hidden state cannot be constructed faithfully
+			if named, _ := n.pointee.T.(*types.Named); named != nil && named.Obj().Pkg() != nil && named.Obj().Pkg() != g.pkg {
+				for _, fn := range n.pointee.fnames {
+					if fn != "_" && !types.NewVar(0, nil, fn, nil).Exported() {
+						return "", false
+					}
+				}
+			}
+		}
 		l, ok := g.literal(n.pointee)
 		if !ok {
 			return "", false
@@ -666,7 +676,7 @@ func (v *Verifier) replaySource(o *Obligation, fx *FnCtx, fn *ssa.Function, fc *
 	}
 	sb.WriteString(")\n\n")
 	sb.WriteString(decls)
-	sb.WriteString("\nfunc TestHvcReplay(t *testing.T) {\n")
+	sb.WriteString("\nfunc TestHvcReplay(hvcT *testing.T) {\n")
 	sb.WriteString(body.String())
 	sb.WriteString("}\n")
 	return sb.String(), nil
